@@ -115,15 +115,27 @@ def analyse_are_d_separated(model: Model, rep: Report, rule_prefix: str = "R4") 
     cs = typed(ev2, "conditions", ("iter", ("cls", VARIABLE)))
     rets2 = return_paths(ev2.run(crt, {"left": l, "right": r, "conditions": cs}, self_term=("ref", "y0.struct.DSeparationJudgement")))
     problems = []
+
+    def mentions_both(t):
+        subs = list(subterms(t))
+        return any(s_ == l for s_ in subs) and any(s_ == r for s_ in subs)
+
+    ordered = False
     for rr in rets2:
         problems += leaks(ev2, rr.value, rr.conds)
         if rr.value[0] == "rec":
             fl = dict(rr.value[2])
-            for k in ("left", "right"):
-                t = fl.get(k)
-                if not any(s[0] == "call" and s[1] == "sorted" for s in subterms(t)):
-                    problems.append(f"`{k}` is not taken from the sorted pair")
-            if not any(s[0] == "call" and s[1] == "sorted" for s in subterms(fl.get("conditions"))):
+            # the canonical pair must be decided by an ORDER comparison of the two endpoints (sorted / min / max / a < b swap), so that
+            # create(a, b) and create(b, a) are the same record; and the conditions must be put in a sorted order
+            pair_terms = (fl.get("left"), fl.get("right"))
+            by_call = all(any(s_[0] == "call" and s_[1] in ("sorted", "min", "max") and mentions_both(s_) for s_ in subterms(t)) for t in pair_terms)
+            by_cmp = any(s_[0] in ("lt", "le") and mentions_both(s_) for c in rr.conds for s_ in subterms(c)) and all(t in (l, r) for t in pair_terms) and pair_terms[0] != pair_terms[1]
+            if by_call or by_cmp:
+                ordered = True
+            else:
+                problems.append("the endpoints are stored as given: create(a, b) and create(b, a) are different records (they must be ordered by a comparison of the two)")
+            cond_t = fl.get("conditions")
+            if not any(s_[0] == "call" and s_[1] == "sorted" for s_ in subterms(cond_t)):
                 problems.append("conditions are not sorted")
     if not rets2:
         problems.append("create has no return path")
@@ -143,52 +155,41 @@ def subst_nodes(t: Term, M: Term) -> Term:
 
 def _check_latent_expansion(rep: Report, f, rule: str, L: Term, sa: SetAlg):
     """L must be a fresh DiGraph with the ancestral graph's nodes and directed edges plus, for EVERY bidirected edge
-    (u, v), a fresh node with edges to u and to v.  Returns the ancestral graph term."""
+    (u, v), a fresh node with edges to u and to v.  Returns the ancestral graph term.  The builder may use any mix of add_node(s_from) /
+    add_edge(s_from), loops, generators, chains or `for w in (u, v)` (normalised by nx_builder_parts)."""
+    from .common import nx_builder_parts
     cons = construct(f, "moral-bidirected")
-    effs = []
-    t = L
-    while t[0] in ("accum", "mut"):
-        if t[0] == "accum":
-            effs.append((t[3], t[4]))
-            t = t[2]
-        else:
-            for e in t[2]:
-                effs.append((e, ()))
-            t = t[1]
-    if not (t[0] == "call" and t[1].endswith("DiGraph") and not t[2]):
-        # accepted alternative: the library's own latent-variable DAG
+    parts = nx_builder_parts(L, sa)
+    if parts is None:
         if any(s[0] in ("meth", "call") and "latent_variable_dag" in str(s[2] if s[0] == "meth" else s[1]) for s in subterms(L)):
             rep.proven(rule, cons, loc=loc(f), sample={"idiom": "to_latent_variable_dag"})
             return None
         rep.unknown(rule, cons, "latent expansion not recognised: " + short(show(L), 160), loc(f))
         return None
+    _, nodes, edges = parts
     anc = None
     node_ok = edge_ok = False
-    lat = {}
+    lat: dict = {}
     problems = []
-    for e, gens in effs:
-        if e[0] != "call":
+    for el, gens in nodes:
+        if el[0] == "ALL" and not gens and el[1][0] == "V":
+            node_ok = True
+            anc = el[1][1]
+    for el, gens in edges:
+        if el[0] == "ALL" and not gens and el[1][0] == "Ed":
+            edge_ok = True
+            anc = anc or el[1][1]
             continue
-        name, args = e[1], e[2]
-        if name == "add_nodes_from" and args and not gens:
-            c = sa.strip(args[0])
-            if c[0] == "V":
-                node_ok = True
-                anc = c[1]
-        elif name == "add_edges_from" and args and not gens:
-            c = sa.strip(args[0])
-            if c[0] == "Ed":
-                edge_ok = True
-                anc = anc or c[1]
-        elif name == "add_edge" and gens:
-            (pat, it, conds), = gens if len(gens) == 1 else (gens[-1],)
+        if el[0] == "tuplelit" and len(el[1]) == 2 and gens:
+            pat, it, conds = gens[-1] if len(gens) == 1 else gens[0]
             src = sa.strip(it)
             if src[0] == "Eu" and pat[0] == "tuplelit" and len(pat[1]) == 2:
                 u, v = pat[1]
-                latent, tgt = args[0], args[1]
-                if conds:
+                latent, tgt = el[1]
+                allconds = [c for _, _, cs in gens for c in cs]
+                if allconds:
                     problems.append("some bidirected edges of the ancestral graph get no latent parent (the loop over bidirected edges is filtered by `"
-                                    + short(show(conds[0]), 100) + "`): a conditioned collider reached through such an edge does not open the path")
+                                    + short(show(allconds[0]), 100) + "`): a conditioned collider reached through such an edge does not open the path")
                 if not (any(s == u for s in subterms(latent)) and any(s == v for s in subterms(latent))):
                     problems.append("the latent node does not identify its edge (two bidirected edges could share one latent)")
                 lat.setdefault(src[1], set()).add("u" if tgt == u else "v" if tgt == v else "?")
